@@ -23,6 +23,7 @@ type Layout struct {
 	FloatZeros   bool // trailing zeros on floats
 	TimeVariants bool // fractional seconds are always kept; this adds equivalent zone offsets
 	BoolDigits   bool // 1/0 instead of true/false (xsd:boolean)
+	Namespace    int  // 0 none; 1 the root declares a default namespace (inherited by every element); 2 the root declares an unused prefixed namespace
 }
 
 type xw struct {
@@ -624,6 +625,17 @@ func (w *xw) rootAttrs(version, generator, copyright, attribution, license strin
 			a = append(a, attr{kv.k, kv.v})
 		}
 	}
+	return w.ns(a)
+}
+
+// ns adds the namespace declaration of the layout to the root's attributes.
+func (w *xw) ns(a []attr) []attr {
+	switch w.l.Namespace {
+	case 1:
+		a = append(a, attr{"xmlns", "http://openstreetmap.org/osm/0.6"})
+	case 2:
+		a = append(a, attr{"xmlns:xsi", "http://www.w3.org/2001/XMLSchema-instance"})
+	}
 	return a
 }
 
@@ -664,7 +676,7 @@ func RenderChange(d *ChangeDoc, l Layout) string {
 func RenderDiff(d *DiffDoc, l Layout) string {
 	w := newXW(l)
 	w.decl()
-	w.open("osm", []attr{{"version", "0.6"}, {"generator", "augmented diff"}}, false)
+	w.open("osm", w.ns([]attr{{"version", "0.6"}, {"generator", "augmented diff"}}), false)
 	for _, a := range d.Actions {
 		w.ws()
 		w.open("action", []attr{{"type", a.Type}}, false)
